@@ -614,7 +614,8 @@ def analyse(rec, c, k, out_path, inp_path, payload):
             V('C13', 'dup_sample', 'replicated_draws',
               f'{tdup} of {sum(tvecs.values())} iterations drew a vector also drawn by another iteration')
     # PIT values for the pooled distribution test (thorough tier, strict runs without failures)
-    if strict and not rec['failed_iterations'] and not c['iter_fail']:
+    if strict and not c['iter_fail']:
+        # (configurations without edge distributions: on a correct tree no iteration fails there, so there is no censoring)
         pit = []
         for lineno, toks, pairs, ln in rows:
             if len(pairs) != len(c['inputs']):
